@@ -550,7 +550,11 @@ func (g *Gen) anyExpr(sc *Scope, depth int) *E {
 		o := &E{K: "obj"}
 		n := g.n(3)
 		for i := 0; i < n; i++ {
-			o.Keys = append(o.Keys, g.pick([]string{"a", "b", "name", "k"}))
+			k := g.pick([]string{"a", "b", "name", "k"})
+			if containsStr(o.Keys, k) { // duplicate keys are outside every statement
+				continue
+			}
+			o.Keys = append(o.Keys, k)
 			o.Kids = append(o.Kids, g.anyExpr(sc, d))
 		}
 		return o
